@@ -155,6 +155,10 @@ func strValues(cls string, r *rand.Rand) []interface{} {
 	case "json":
 		return pick(r, []interface{}{`{"a": 1}`, `[1, 2, 3]`, `null`, `true`, `"quoted"`, `{"k": "v", "n": null}`, `{}`, `[]`,
 			fmt.Sprintf(`{"id": %d, "tags": ["x", "y"]}`, r.Intn(1000))}, 6)
+	case "timelike":
+		// text that only looks like a point in time (an ISO-8601 stamp in a VARCHAR, a date, a clock time)
+		return pick(r, []interface{}{"2024-03-09T10:15:30Z", "2024-03-09T10:15:30.250+08:00", "2024-03-09 10:15:30", "2024-03-09",
+			"10:15:30", "0000-00-00 00:00:00", "2024-03-09T10:15:30", fmt.Sprintf("20%02d-0%d-1%dT0%d:00:00Z", r.Intn(30), 1+r.Intn(9), r.Intn(9), r.Intn(9))}, 6)
 	case "multibyte":
 		return pick(r, []interface{}{"日本語", "héllo", "😀 emoji", "Ünïcödé", "中文字符串测试", "Привет", "ab日"}, 5)
 	case "escape":
